@@ -340,6 +340,10 @@ pub fn build_project(pc: &ProjCfg) -> Option<BuiltProject> {
     files.insert("src/cyc/b.graphql".into(), "#import C1 from \"./c.graphql\"\nfragment B1 on User { id ...C1 }\nfragment B2 on User { age }\n".into());
     files.insert("src/cyc/c.graphql".into(), "#import A2 from \"./a.graphql\"\n#import B2 from \"./b.graphql\"\nfragment C1 on User { ...A2 ...B2 }\n".into());
     files.insert("src/deep/orgs.graphql".into(), EXTRA_OP.into());
+    // two documents that each define a fragment of their own under one name, at the same line and column (fragment
+    // names are scoped to their document): what one of them gets must not depend on the other having been printed
+    files.insert("src/twin/card.graphql".into(), "fragment Twin on User {\n  id\n  name\n}\nquery TwinCard {\n  me { ...Twin }\n}\n".into());
+    files.insert("src/twin/profile.graphql".into(), "fragment Twin on User {\n  age\n}\nquery TwinProfile {\n  me { ...Twin kind }\n}\n".into());
     for id in pc.faults {
         let ft = c18::FAULTS.iter().find(|f| f.id == *id)?;
         let t = files.get_mut(ft.file)?;
@@ -662,7 +666,8 @@ pub fn generate_in_process(root: &std::path::Path, bp: &BuiltProject, pc: &ProjC
         let mapper: Vec<usize> = (0..n_all).map(|k| if k < n_schema { k } else if let Ok(nth) = from.binary_search(&k) { n_schema + nth } else { usize::MAX }).collect();
         let mut w = SourceWriter::new();
         w.set_file_index_mapper(mapper);
-        print_types_for_operation_document(o, &schema, opdoc, &mut w);
+        // on a thread of its own: the bytes this document gets alone (no per-thread state left by earlier documents)
+        crate::util::on_fresh_thread(|| print_types_for_operation_document(o, &schema, opdoc, &mut w));
         let mut sources = schema_sources.clone();
         for k in &from {
             sources.push(op_inputs[*k - n_schema].0.as_path());
